@@ -1181,6 +1181,19 @@ fn run_case(c: &mut Ctx, rng: &mut ChaCha20Rng, made: Made, real: bool, ops: &[R
     };
     if upd_first {
         p = step_upd(c, p, rng);
+        // a Signer may come before the IO Finalizer if the API lets it
+        let early = duties(&made);
+        if !early.is_empty() && rng.gen_bool(0.35) {
+            match guard(|| sign(c, p.clone(), &early[..1], &made)) {
+                Ok(Ok(x)) => {
+                    c.r.count("signer_before_io_finalizer_permitted", 1);
+                    observe(c, "signer", &x, &txid0, &made);
+                    p = x;
+                }
+                Ok(Err(_)) => c.r.count("signer_before_io_finalizer_refused", 1),
+                Err(pn) => viol(c, &format!("signer:panic:{}", panic_class(&pn)), pn, stage_json("signer", &made)),
+            }
+        }
         let Some(q) = step_io(c, p) else { return };
         p = q;
     } else {
@@ -1188,6 +1201,7 @@ fn run_case(c: &mut Ctx, rng: &mut ChaCha20Rng, made: Made, real: bool, ops: &[R
         p = step_upd(c, q, rng);
     }
     let pa = p;
+    strip_and_restore(c, &pa, &txid0, &made);
 
     // Redactor: every applicable operation once on a fork (all items or one item)
     {
@@ -1452,15 +1466,156 @@ fn run_case(c: &mut Ctx, rng: &mut ChaCha20Rng, made: Made, real: bool, ops: &[R
             Err(pn) => viol(c, &format!("spend_finalizer:panic:{}", panic_class(&pn)), pn, stage_json("spend_finalizer", &made)),
         }
     }
-    if made.deferred && real {
-        // install anchors and witnesses now (after signing), then prove
-        // (deferred cases are proved here rather than by a party)
+    if made.deferred {
+        // ZIP 374: anchors and witnesses are installed after signing, right before proving
+        match guard(|| install_anchors_and_witnesses(p.clone(), &made)) {
+            Ok(Ok(q)) => {
+                p = q;
+                c.r.count("deferred_anchors_installed", 1);
+                check_txid(c, "updater-anchors-after-signing", &p, &txid0, &made, lenient);
+                check_roundtrip(c, &p, "updater-anchors-after-signing", &made);
+                if real {
+                    for pr in [Proof::Orchard, Proof::Ironwood] {
+                        let n = if pr == Proof::Orchard { p.orchard().actions().len() } else { p.ironwood().actions().len() };
+                        if n == 0 {
+                            continue;
+                        }
+                        match guard(|| prove(c, p.clone(), pr, &made)) {
+                            Ok(Ok(x)) => {
+                                p = x;
+                                c.r.count(&format!("proved_after_deferral:{pr:?}"), 1);
+                                check_txid(c, "prover", &p, &txid0, &made, lenient);
+                            }
+                            Ok(Err(e)) => c.r.count(&format!("prover_err:{pr:?}:{}", e.chars().take(40).collect::<String>()), 1),
+                            Err(pn) => viol(c, &format!("prover:panic:{}", panic_class(&pn)), pn, stage_json("prover", &made)),
+                        }
+                    }
+                }
+            }
+            Ok(Err(e)) => c.r.count(&format!("deferred_install_err:{}", e.chars().take(40).collect::<String>()), 1),
+            Err(pn) => viol(c, &format!("updater:panic:{}", panic_class(&pn)), pn, stage_json("updater", &made)),
+        }
     }
     extract(c, &p, &txid0, &made, real);
     c.r.sample(
         &format!("case:v{}:{}", made.p.global().tx_version(), if real { "real-proofs" } else { "volume" }),
         json!({"request": made.req.to_json(), "parties": n_parties, "duties": format!("{all_duties:?}")}),
     );
+}
+
+fn witnesses(made: &Made) -> (Vec<(usize, orchard::tree::MerklePath)>, Vec<(usize, orchard::tree::MerklePath)>, Vec<(usize, sapling::MerklePath)>) {
+    let o = (0..made.req.o_spend.len())
+        .filter_map(|k| made.ometa.spend_action_index(k).map(|i| (i, made.m.o_notes[k].path.clone())))
+        .collect();
+    let i = (0..made.req.i_spend.len())
+        .filter_map(|k| made.imeta.spend_action_index(k).map(|i| (i, made.m.i_notes[k].path.clone())))
+        .collect();
+    let s = (0..made.req.s_spend.len())
+        .filter_map(|k| made.smeta.spend_index(k).map(|i| (i, made.m.s_notes[k].path.clone())))
+        .collect();
+    (o, i, s)
+}
+
+fn install_anchors_and_witnesses(p: Pczt, made: &Made) -> Result<Pczt, String> {
+    let (ow, iw, _) = witnesses(made);
+    let mut u = Updater::new(p);
+    if !made.req.o_spend.is_empty() || !u_has_actions(&u, false) {
+        // nothing
+    }
+    let e = |x: &dyn std::fmt::Debug| format!("{x:?}");
+    if !ow.is_empty() {
+        u = u.set_orchard_anchor(made.m.o_anchor).map_err(|x| e(&x))?;
+        u = u.set_orchard_spend_witnesses(ow).map_err(|x| e(&x))?;
+    } else {
+        u = u.set_orchard_anchor(made.m.o_anchor).map_err(|x| e(&x))?;
+    }
+    if !iw.is_empty() {
+        u = u.set_ironwood_anchor(made.m.i_anchor).map_err(|x| e(&x))?;
+        u = u.set_ironwood_spend_witnesses(iw).map_err(|x| e(&x))?;
+    } else {
+        u = u.set_ironwood_anchor(made.m.i_anchor).map_err(|x| e(&x))?;
+    }
+    Ok(u.finish())
+}
+
+fn u_has_actions(_u: &Updater, _iron: bool) -> bool {
+    true
+}
+
+/// v6 only: strip anchors and spend witnesses (what a signer does not need), then put them back
+/// with the Updater: the PCZT must be the same value again and imply the same txid throughout.
+fn strip_and_restore(c: &mut Ctx, pa: &Pczt, txid0: &Result<TxId, String>, made: &Made) {
+    if *pa.global().tx_version() != 6 || made.deferred {
+        return;
+    }
+    let (ow, iw, sw) = witnesses(made);
+    let want = tree(pa).expect("tree");
+    let mut q = Redactor::new(pa.clone());
+    let (has_s, has_o, has_i) = (pa.sapling().anchor().is_some(), pa.orchard().anchor().is_some(), pa.ironwood().anchor().is_some());
+    if has_s {
+        q = q.redact_sapling_with(|mut r| {
+            r.clear_anchor();
+            for (i, _) in &sw {
+                r.redact_spend(*i, |mut s| s.clear_witness());
+            }
+        });
+    }
+    if has_o {
+        q = q.redact_orchard_with(|mut r| {
+            r.clear_anchor();
+            for (i, _) in &ow {
+                r.redact_action(*i, |mut a| a.clear_spend_witness());
+            }
+        });
+    }
+    if has_i {
+        q = q.redact_ironwood_with(|mut r| {
+            r.clear_anchor();
+            for (i, _) in &iw {
+                r.redact_action(*i, |mut a| a.clear_spend_witness());
+            }
+        });
+    }
+    let stripped = q.finish();
+    check_txid(c, "redactor-anchors", &stripped, txid0, made, false);
+    check_roundtrip(c, &stripped, "redactor-anchors", made);
+    let restore = || -> Result<Pczt, String> {
+        let e = |x: &dyn std::fmt::Debug| format!("{x:?}");
+        let mut u = Updater::new(stripped.clone());
+        if has_s {
+            u = u.set_sapling_anchor(made.m.s_anchor).map_err(|x| e(&x))?;
+            u = u.set_sapling_spend_witnesses(sw.clone()).map_err(|x| e(&x))?;
+        }
+        if has_o {
+            u = u.set_orchard_anchor(made.m.o_anchor).map_err(|x| e(&x))?;
+            u = u.set_orchard_spend_witnesses(ow.clone()).map_err(|x| e(&x))?;
+        }
+        if has_i {
+            u = u.set_ironwood_anchor(made.m.i_anchor).map_err(|x| e(&x))?;
+            u = u.set_ironwood_spend_witnesses(iw.clone()).map_err(|x| e(&x))?;
+        }
+        Ok(u.finish())
+    };
+    match guard(restore) {
+        Ok(Ok(r)) => {
+            c.r.count("anchors_stripped_and_restored", 1);
+            check_txid(c, "updater-anchors", &r, txid0, made, false);
+            let got = tree(&r).expect("tree");
+            if !same(&want, &got) {
+                let mut d = vec![];
+                diff(&want, &got, "", &mut d, 4);
+                let g = d.first().map(|x| generic_path(x)).unwrap_or_default();
+                viol(
+                    c,
+                    &format!("updater:restore-differs:{}", g.split(' ').next().unwrap_or("")),
+                    format!("after clearing and re-installing anchors/witnesses the PCZT differs at {d:?}"),
+                    stage_json("updater-anchors", made),
+                );
+            }
+        }
+        Ok(Err(e)) => c.r.count(&format!("anchor_restore_err:{}", e.chars().take(40).collect::<String>()), 1),
+        Err(pn) => viol(c, &format!("updater:panic:{}", panic_class(&pn)), pn, stage_json("updater-anchors", made)),
+    }
 }
 
 /// Hand-made PCZTs from `Creator::new` (no builder): anchors present / absent / all-zero.
@@ -1488,6 +1643,47 @@ fn creator_probes(c: &mut Ctx) {
         made.p = p.clone();
         check_roundtrip(c, &p, &format!("creator-new:{branch:?}:anchors={}{}", anchor_kind(sa), anchor_kind(oa)), &made);
     }
+}
+
+/// Content that only the v2 encoding can carry, grafted into a v5 PCZT through the value tree
+/// (no role can produce it): an Ironwood bundle that is not canonically empty, an Orchard bundle
+/// with note version 3.
+fn v5_with_v2_only_content(c: &mut Ctx) {
+    use zcash_protocol::consensus::BranchId;
+    let v6 = Creator::new(BranchId::Nu6_3.into(), 1_000_000, 133, Some([7; 32]), Some([9; 32]))
+        .and_then(|cr| cr.with_ironwood_anchor([5; 32]))
+        .and_then(|cr| cr.build());
+    let v5 = Creator::new(BranchId::Nu6.into(), 1_000_000, 133, Some([7; 32]), Some([9; 32])).and_then(|cr| cr.build());
+    let (Ok(v6), Ok(v5)) = (v6, v5) else { return };
+    let (Ok(t6), Ok(t5)) = (tree(&v6), tree(&v5)) else { return };
+    let made = make_dummy(c);
+    // (1) Ironwood data in a v5 PCZT
+    if let Some(iw) = get(&t6, "ironwood").cloned() {
+        let mut t = t5.clone();
+        if let Some(slot) = get_mut(&mut t, "ironwood") {
+            *slot = iw;
+        }
+        if let Ok(p) = from_tree(&t) {
+            let mut m = make_dummy(c);
+            m.p = p.clone();
+            c.r.count("v5_with_ironwood_data_probes", 1);
+            check_roundtrip(c, &p, "probe:v5-with-ironwood-data", &m);
+        }
+    }
+    // (2) Orchard note version 3 in a v5 PCZT
+    {
+        let mut t = t5.clone();
+        if let Some(nv) = get_mut(&mut t, "orchard").and_then(|o| get_mut(o, "note_version")) {
+            *nv = V::Text("V3".into());
+        }
+        if let Ok(p) = from_tree(&t) {
+            let mut m = make_dummy(c);
+            m.p = p.clone();
+            c.r.count("v5_with_note_v3_probes", 1);
+            check_roundtrip(c, &p, "probe:v5-with-orchard-note-v3", &m);
+        }
+    }
+    let _ = made;
 }
 
 fn anchor_kind(a: Option<[u8; 32]>) -> &'static str {
@@ -1528,6 +1724,7 @@ fn main() {
 
     if args.shard == 0 {
         creator_probes(&mut c);
+        v5_with_v2_only_content(&mut c);
     }
     let mut n = 0;
     while n < max_cases && c.r.frac_left() > real_share {
@@ -1548,7 +1745,8 @@ fn main() {
     let mut tries = 0;
     while done < real_cases && tries < real_cases * 60 && c.r.time_left() {
         tries += 1;
-        let Some(made) = make(&mut c, &mut rng, true, false) else { continue };
+        let deferred = lo >= H_NU6_3 && tries % 2 == 0;
+        let Some(made) = make(&mut c, &mut rng, true, deferred) else { continue };
         if made.req.height < lo || made.req.height > hi {
             continue;
         }
